@@ -117,8 +117,11 @@ class Ctx(object):
             print("MACHINERY-FAILURE property=%s %s" % (self.prop, self.machinery_errors[0][:300]))
             return 2
         if self.violations:
-            for v in self.violations[:10]:
-                print("  violation: %s" % json.dumps(v, default=str)[:600])
+            for v in self.violations[:8]:
+                brief = dict((k, x) for k, x in v.items() if k not in ("events", "detail"))
+                print("  violation: %s" % json.dumps(brief, default=str)[:500])
+            if len(self.violations) > 8:
+                print("  ... %d violations in total" % len(self.violations))
             print("VIOLATION property=%s replay=%s" % (self.prop, replay))
             return 1
         print("OK property=%s tier=%s seed=%d states=%d transitions=%d traces=%d evaluations=%d wall=%.1fs" % (
